@@ -377,7 +377,11 @@ func (w *World) materialise(it Intent, h int64, idx int, sc *blockScratch) *TxPl
 		}
 		tx = web3.NewTrxUnstaking(fromB, toB, nonce, gas, gp, id)
 	case "withdraw":
-		tx = web3.NewTrxWithdraw(fromB, fromB, nonce, gas, gp, u256(amt))
+		wTo := fromB
+		if it.To != "" && okTo {
+			wTo = toB // the receiver field of a withdrawal is not its beneficiary
+		}
+		tx = web3.NewTrxWithdraw(fromB, wTo, nonce, gas, gp, u256(amt))
 	case "proposal":
 		start := h + it.Start
 		period := it.Period
@@ -498,7 +502,13 @@ func (w *World) applyMutation(p *TxPlan, tx *rtypes.Trx, mu *Mutation, act *Acto
 	one := uint256.NewInt(1)
 	switch mu.Field {
 	case "amount":
-		if mu.How == "dec" && !tx.Amount.IsZero() {
+		if mu.How == "w64" || mu.How == "w128" {
+			sh := uint(64)
+			if mu.How == "w128" {
+				sh = 128
+			}
+			tx.Amount = new(uint256.Int).Add(tx.Amount, new(uint256.Int).Lsh(one, sh))
+		} else if mu.How == "dec" && !tx.Amount.IsZero() {
 			tx.Amount = new(uint256.Int).Sub(tx.Amount, one)
 		} else {
 			tx.Amount = new(uint256.Int).Add(tx.Amount, one)
@@ -581,7 +591,11 @@ func (w *World) applyMutation(p *TxPlan, tx *rtypes.Trx, mu *Mutation, act *Acto
 			}
 			pl.TxHash = h
 		case *rtypes.TrxPayloadWithdraw:
-			pl.ReqAmt = new(uint256.Int).Add(pl.ReqAmt, one)
+			if mu.How == "w64" {
+				pl.ReqAmt = new(uint256.Int).Add(pl.ReqAmt, new(uint256.Int).Lsh(one, 64))
+			} else {
+				pl.ReqAmt = new(uint256.Int).Add(pl.ReqAmt, one)
+			}
 		case *rtypes.TrxPayloadProposal:
 			switch mu.How {
 			case "msg":
